@@ -19,7 +19,7 @@ def specs_for(ctx):
     specs = []
     # structure: every sub-tissue of small arc tissues enumerated by TLC, with mixed cell orientations
     ninst = 0
-    for b in ctx.pick(["hexflower"], ["hexflower", "hex33", "irregular"]):
+    for b in ctx.pick(["hexflower", "lens5"], ["hexflower", "lens5", "hex33", "irregular"]):
         res = ctx.mc("MC_Interfaces", ctx.pick("MC_Interfaces_k13.cfg", "MC_Interfaces_k0137.cfg"),
                      env={"BASE_FILE": os.path.join(core.VERIF, "models", "catalogue", b + ".json")}, timeout=3000)
         insts = [i for i in res.printed if i["ninternal"] > 0 and i["k"] >= 1]
